@@ -513,3 +513,190 @@ Proof.
       rewrite encode_length in H1, H2. lia.
   - apply reads_fuel_enough.
 Qed.
+
+(* ================= resynchronisation after arbitrary damage ================= *)
+Definition allz (l : list N) := Forall (fun b => b = 0) l.
+
+Lemma strip0_split l : exists z, allz z /\ l = z ++ strip0 l.
+Proof.
+  induction l as [|b l (z & Hz & Hl)]; [exists []; split; [constructor|reflexivity]|].
+  cbn [strip0]. unfold isz. destruct (b =? 0) eqn:E.
+  - apply N.eqb_eq in E. subst b. exists (0 :: z). split; [constructor; auto|]. cbn. f_equal. exact Hl.
+  - exists []. split; [constructor|reflexivity].
+Qed.
+
+Lemma cut0_split l f r : cut0 l = Some (f, r) -> l = f ++ 0 :: r /\ zf f.
+Proof.
+  revert f r. induction l as [|b l IH]; cbn; intros f r H; [discriminate|].
+  unfold isz in H. destruct (b =? 0) eqn:E.
+  - apply N.eqb_eq in E. inversion H; subst. split; [reflexivity|constructor].
+  - destruct (cut0 l) as [[f' r']|]; [|discriminate]. inversion H; subst.
+    destruct (IH _ _ eq_refl) as [-> Hz]. split; [reflexivity|]. constructor; [apply N.eqb_neq; exact E|exact Hz].
+Qed.
+
+Lemma allz_strip0 l : allz l -> strip0 l = [].
+Proof. induction 1 as [|b l Hb _ IH]; [reflexivity|]. subst b. cbn. exact IH. Qed.
+
+Lemma strip0_nil_allz l : strip0 l = [] -> allz l.
+Proof.
+  induction l as [|b l IH]; intros H; [constructor|]. cbn in H. unfold isz in H.
+  destruct (b =? 0) eqn:E; [|discriminate]. apply N.eqb_eq in E. constructor; [exact E|apply IH; exact H].
+Qed.
+
+(* a zero found inside zeros-then-zero-free must lie in the zeros *)
+Lemma zeros_zf_eq z seg junk m : allz z -> zf seg -> z ++ seg = junk ++ 0 :: m -> allz junk.
+Proof.
+  intros Hz Hs. revert junk. induction Hz as [|b z Hb Hz IH]; intros junk H; cbn in H.
+  - exfalso. assert (In 0 seg) by (rewrite H; apply in_or_app; right; left; reflexivity).
+    unfold zf in Hs. rewrite Forall_forall in Hs. specialize (Hs 0 H0). congruence.
+  - destruct junk as [|a junk]; [constructor|]. cbn in H. inversion H; subst. constructor; [reflexivity|]. apply IH. assumption.
+Qed.
+
+Lemma zeros_prefix z A junk B : allz z -> z ++ A = junk ++ B -> strip0 junk <> [] ->
+  exists j1, junk = z ++ j1 /\ A = j1 ++ B /\ strip0 j1 = strip0 junk.
+Proof.
+  intros Hz. revert junk. induction Hz as [|b z Hb Hz IH]; intros junk H Hn; cbn in H.
+  - exists junk. auto.
+  - destruct junk as [|a junk]; [contradiction|]. cbn in H. inversion H; subst a. subst b.
+    cbn [strip0] in Hn. unfold isz in Hn. change (0 =? 0) with true in Hn. cbv iota in Hn.
+    destruct (IH junk H2 Hn) as (j1 & -> & HA & Hs). exists j1. repeat split; auto.
+Qed.
+
+Lemma guard_pos blen maxlen s : (0 < blen)%nat -> guard_fires blen maxlen s = true -> (0 < length s)%nat.
+Proof.
+  intros Hb H. unfold guard_fires in H. destruct s as [|a s]; [|cbn; lia]. exfalso. cbn [length] in H.
+  apply orb_prop in H as [H|H]; [apply Nat.leb_le in H; lia|apply Nat.ltb_lt in H; lia].
+Qed.
+
+Section Resync.
+Variables blen maxlen : nat.
+Variable fs : list (list N).
+Hypothesis Hb : (0 < blen)%nat.
+Hypothesis Hok : Forall (frame_ok blen maxlen) fs.
+
+Let S := concat (map write fs).
+Let L := Nat.min (blen - 1) maxlen.
+
+Lemma HbytesR : Forall (fun f => Forall (fun b => b < 256) f) fs.
+Proof. eapply Forall_impl; [|exact Hok]. intros f (_ & H & _). exact H. Qed.
+
+Lemma bounded_S : bounded L (frames S).
+Proof.
+  unfold S. rewrite frames_writes by exact HbytesR. split; cbn [fst snd length]; [|lia].
+  apply Forall_map. eapply Forall_impl; [|exact Hok]. intros f (_ & _ & H1 & H2).
+  rewrite encode_length in H1, H2. unfold L. lia.
+Qed.
+
+Lemma frames_zeros j : allz j -> frames (j ++ 0 :: S) = frames S.
+Proof.
+  intros Hj. rewrite <- frames_strip. rewrite strip0_app_all0 by (apply allz_strip0; exact Hj).
+  cbn [strip0]. unfold isz. change (0 =? 0) with true. cbv iota. apply frames_strip.
+Qed.
+
+(* the stream is zeros, a delimiter, then the written frames: exactly the frames come out *)
+Lemma reads_zeros_S fuel lo chunks j :
+  lo ++ concat chunks = j ++ 0 :: S -> allz j ->
+  (length lo + length (concat chunks) + length chunks < fuel)%nat ->
+  reads blen maxlen fuel lo chunks = map RFrame fs ++ [RErr 9].
+Proof.
+  intros Heq Hj Hf.
+  assert (HL1 : (L < blen)%nat) by (unfold L; lia).
+  assert (HL2 : (L <= maxlen)%nat) by (unfold L; lia).
+  assert (HB : bounded L (frames (lo ++ concat chunks))) by (rewrite Heq, (frames_zeros j Hj); exact bounded_S).
+  rewrite (reads_frames blen maxlen L HL1 HL2 fuel lo chunks HB Hf).
+  rewrite Heq, (frames_zeros j Hj). unfold S. rewrite frames_writes by exact HbytesR. cbn [fst].
+  rewrite (map_seg_result_ok blen maxlen) by exact Hok. reflexivity.
+Qed.
+
+Lemma reads_S fuel lo chunks :
+  lo ++ concat chunks = S ->
+  (length lo + length (concat chunks) + length chunks < fuel)%nat ->
+  reads blen maxlen fuel lo chunks = map RFrame fs ++ [RErr 9].
+Proof.
+  intros Heq Hf.
+  assert (HL1 : (L < blen)%nat) by (unfold L; lia).
+  assert (HL2 : (L <= maxlen)%nat) by (unfold L; lia).
+  assert (HB : bounded L (frames (lo ++ concat chunks))) by (rewrite Heq; exact bounded_S).
+  rewrite (reads_frames blen maxlen L HL1 HL2 fuel lo chunks HB Hf).
+  rewrite Heq. unfold S. rewrite frames_writes by exact HbytesR. cbn [fst].
+  rewrite (map_seg_result_ok blen maxlen) by exact Hok. reflexivity.
+Qed.
+
+(* a delimiter, then the frames, after a remainder j of damage (all zeros or not) *)
+Definition tail_goal fuel lo chunks := exists pre, reads blen maxlen fuel lo chunks = pre ++ map RFrame fs ++ [RErr 9].
+
+Theorem resync_any : forall fuel lo chunks junk,
+  lo ++ concat chunks = junk ++ 0 :: S ->
+  (length lo + length (concat chunks) + length chunks < fuel)%nat ->
+  tail_goal fuel lo chunks.
+Proof.
+  induction fuel as [|fuel IH]; intros lo chunks junk Heq Hf; [lia|].
+  destruct (strip0 junk) as [|x0 xs] eqn:Ej.
+  { exists []. apply (reads_zeros_S _ _ _ junk Heq); [apply strip0_nil_allz; exact Ej|exact Hf]. }
+  assert (Hjn : strip0 junk <> []) by (rewrite Ej; discriminate).
+  unfold tail_goal. cbn [reads].
+  destruct (strip0_split lo) as (z & Hz & Hlo).
+  destruct (take_frame lo) as [[seg rest]|] eqn:E.
+  - (* a complete segment is returned; it lies inside the damage *)
+    unfold take_frame in E. destruct (cut0_split _ _ _ E) as [Hs Hzf].
+    pose proof (take_frame_len lo seg rest E) as Hlen.
+    assert (Hstream : (z ++ seg) ++ 0 :: (rest ++ concat chunks) = junk ++ 0 :: S).
+    { rewrite <- Heq, Hlo at 1. rewrite Hs. rewrite <- !app_assoc. reflexivity. }
+    apply app_eq_app in Hstream as (m & [[H1 H2]|[H1 H2]]).
+    + (* z ++ seg = junk ++ m *)
+      destruct m as [|a m].
+      * rewrite app_nil_r in H1. cbn in H2. inversion H2 as [H3].
+        exists [seg_result blen seg]. cbn [app]. f_equal. apply reads_S; [symmetry; exact H3|lia].
+      * cbn in H2. inversion H2; subst a. exfalso.
+        pose proof (zeros_zf_eq z seg junk m Hz Hzf H1) as Hall. apply allz_strip0 in Hall. congruence.
+    + (* junk = z ++ seg ++ m *)
+      destruct m as [|a m].
+      * cbn in H2. inversion H2 as [H3].
+        exists [seg_result blen seg]. cbn [app]. f_equal. apply reads_S; [exact H3|lia].
+      * cbn in H2. inversion H2 as [[Ha H3]]. subst a.
+        destruct (IH rest chunks m H3) as (pre & Hpre); [lia|].
+        exists (seg_result blen seg :: pre). cbn [app]. f_equal. exact Hpre.
+  - (* no complete segment buffered *)
+    assert (Hstream : z ++ (strip0 lo ++ concat chunks) = junk ++ 0 :: S) by (rewrite app_assoc, <- Hlo; exact Heq).
+    destruct (zeros_prefix z _ junk _ Hz Hstream Hjn) as (j1 & Hj & HA & Hs1).
+    destruct (guard_fires blen maxlen (strip0 lo)) eqn:EG.
+    + (* the buffered damage is discarded *)
+      unfold take_frame in E. pose proof (cut0_none_zf _ E) as Hzf.
+      assert (Hs2 : strip0 lo ++ concat chunks = j1 ++ 0 :: S) by exact HA.
+      apply app_eq_app in Hs2 as (m & [[H1 H2]|[H1 H2]]).
+      * destruct m as [|a m].
+        -- cbn in H2. exists [RErr 2]. cbn [app]. f_equal.
+           apply (reads_zeros_S _ _ _ []); [cbn; symmetry; exact H2|constructor|].
+           pose proof (strip0_len lo). pose proof (guard_pos blen maxlen _ Hb EG). cbn [length]. lia.
+        -- cbn in H2. inversion H2; subst a. exfalso.
+           assert (allz j1) by (apply (zeros_zf_eq [] (strip0 lo) j1 m); [constructor|exact Hzf|exact H1]).
+           apply allz_strip0 in H. rewrite Hs1 in H. congruence.
+      * (* j1 = strip0 lo ++ m, chunks carry m ++ 0 :: S *)
+        pose proof (guard_pos blen maxlen _ Hb EG) as Hlen.
+        pose proof (strip0_len lo).
+        destruct (IH [] chunks m) as (pre & Hpre); [cbn; exact H2|cbn [length]; lia|].
+        exists (RErr 2 :: pre). cbn [app]. f_equal. exact Hpre.
+    + destruct chunks as [|c cs].
+      * (* the device script cannot end inside the damage: the frames follow *)
+        exfalso. cbn [concat] in HA. rewrite app_nil_r in HA.
+        unfold take_frame in E. pose proof (cut0_none_zf _ E) as Hzf.
+        assert (allz j1) by (apply (zeros_zf_eq [] (strip0 lo) j1 S); [constructor|exact Hzf|exact HA]).
+        apply allz_strip0 in H. rewrite Hs1 in H. congruence.
+      * cbn [concat] in HA, Hf. 
+        destruct (IH (strip0 lo ++ c) cs j1) as (pre & Hpre).
+        -- rewrite <- app_assoc. exact HA.
+        -- pose proof (strip0_len lo). cbn [length] in Hf. rewrite !app_length in *. lia.
+        -- exists pre. exact Hpre.
+Qed.
+
+(* C16, second sentence: whatever bytes [junk] precede a delimiter (corrupted, lost or inserted
+   bytes of earlier frames, of any length), for every segmentation into device reads the results
+   end with exactly the frames written after that delimiter, intact, in order, each once *)
+Theorem resync blen' junk chunks :
+  blen' = blen ->
+  concat chunks = junk ++ 0 :: S ->
+  exists pre, reads_all blen maxlen chunks = pre ++ map RFrame fs ++ [RErr 9].
+Proof.
+  intros _ Hc. unfold reads_all. apply (resync_any _ [] chunks junk); [cbn; exact Hc|apply reads_fuel_enough].
+Qed.
+End Resync.
